@@ -18,6 +18,9 @@ Rec == ndJsonDeserialize(IOEnv.TRACE)
 
 RoundTripUlps == 16
 
+\* settings supplied at load time replace the stored ones, so only their validity counts then
+EffectiveSettingsValid(e) == IF e.override = "none" THEN e.settings_valid ELSE e.override = "valid"
+
 \* classification of a (possibly damaged) file
 Class(e) ==
   IF ~e.json_ok THEN "NotJson"
@@ -25,7 +28,7 @@ Class(e) ==
   ELSE IF ~(Canonical(e.P) /\ Canonical(e.A)) THEN "Struct"
   ELSE IF ~(e.P.m = e.P.n /\ e.P.n = e.nq /\ e.A.n = e.nq /\ e.A.m = e.nb /\ e.cone_rows = e.nb) THEN "Dims"
   ELSE IF ~e.cone_params_ok THEN "ConeParams"
-  ELSE IF ~e.settings_valid THEN "Settings"
+  ELSE IF ~EffectiveSettingsValid(e) THEN "Settings"
   ELSE "ok"
 
 FaultOK(e) ==
@@ -33,6 +36,7 @@ FaultOK(e) ==
   /\ e.outcome # "panic"                                     \* never a panic
   /\ c \in {"NotJson", "Schema", "Struct", "Dims"} => e.outcome = "err"
   /\ c = "ok" => e.outcome = "ok"
+  /\ c = "Settings" => e.outcome = "err"                    \* unusable settings (stored or supplied) are reported
   /\ e.intended # "any" => c = e.intended                    \* the fault generator's intent, cross-checked
 
 RoundTripOK(e) ==
